@@ -13,7 +13,8 @@ class C08(scen.WorldProp):
                 "Wheatley.C08.strike_owner",
                 "Wheatley.C08.at_most_one_strike",
                 "Wheatley.C08.place_advances",
-                "Wheatley.C08.cli_name"]
+                "Wheatley.C08.cli_name",
+                "Wheatley.C08.only_the_main_thread_strikes", "Wheatley.C08.no_strike_while_asleep"]
     # the command line: what of the built configuration this property is about
     cli_fields = ['name']
     level_text = ("theorems: a strike is emitted only for a bell that was Wheatley's when its turn began, at most one "
